@@ -69,7 +69,7 @@ func check(c Case) (kind, what string) {
 	in := ref.V3{float64(c.V[0]), float64(c.V[1]), float64(c.V[2])}
 	scale := math.Max(1, l1(c.V))
 	var got, want ref.V3
-	tol := 1e-6 * scale
+	tol := 1.5e-6 * scale // float32 evaluation of the 3-term sum has a worst-case rounding error of 4*2^-24*sum|terms| = 0.77e-6*scale
 	p, msg := ev.Guard(func() {
 		switch c.Dir {
 		case "toXYZ":
@@ -92,12 +92,17 @@ func check(c Case) (kind, what string) {
 		return "panic", msg
 	}
 	for i := 0; i < 3; i++ {
+		if r := math.Abs(got[i]-want[i]) / tol; r > worst[c.Dir] {
+			worst[c.Dir] = r
+		}
 		if math.IsNaN(got[i]) || math.Abs(got[i]-want[i]) > tol {
 			return c.Dir, fmt.Sprintf("%s %s(%v): component %d = %.9g, reference %.9g (|diff| %.3g > %.3g)", c.Space, c.Dir, c.V, i, got[i], want[i], math.Abs(got[i]-want[i]), tol)
 		}
 	}
 	return "", ""
 }
+
+var worst = map[string]float64{}
 
 func nontrivial(v [3]float32) bool {
 	out := false
@@ -129,7 +134,7 @@ func TestC03(t *testing.T) {
 	}
 	ev.Rule("per space: declared chromaticities vs published values; 9+9 coefficients recovered by probing basis vectors; then the 8-bit-spaced lattice (64^3 quick / 256^3 thorough) of RGB triples and of XYZ triples, plus rapid float32 triples in [-1,2]^3, through ToXYZ, ColorFromXYZ and both round trips. non-trivial = distinct triple with a component outside [0,1] or all three components different")
 	ev.Assume("published chromaticities transcribed in internal/ref; equality with published values at the precision of publication (5e-5)")
-	ev.Set("tolerances", map[string]float64{"coefficient": 1e-6, "transform": 1e-6, "roundtrip": 2e-6, "published": 5e-5})
+	ev.Set("tolerances", map[string]float64{"coefficient": 1e-6, "transform": 1.5e-6, "roundtrip": 2e-6, "published": 5e-5})
 
 	for i := range sp.Spaces {
 		staticChecks(&sp.Spaces[i])
@@ -185,6 +190,7 @@ func TestC03(t *testing.T) {
 			ev.Fail(rt, "xyz", a.Name+"/"+k, w, c)
 		}
 	})
+	ev.Set("worst_error_over_tolerance", worst)
 	if ev.Violations() > 0 {
 		t.Fail()
 	}
